@@ -145,75 +145,6 @@ theorem readEvent_significant (st : RState) (evs : List XmlEv) :
     | (cases ‹Tag› <;> simp_all [significant, significant_start_other, sig_PDU, sig_SIGNAL_INSTANCE, sig_SIGNAL_REF, sig_FRAME, sig_PDU_INSTANCE, sig_PDU_REF, sig_MANUFACTURER_EXTENSION, sig_CODING, sig_SIGNAL, sig_CODED_TYPE, sig_CODING_REF, readEvent]; done)
     | (simp_all (config := { zetaDelta := true }) [significant, readEvent]; done)
 
-/-- `read_pdu` cannot tell a file from its significant events -/
-theorem readPdu_significant : ∀ (n : Nat) (st : RState) (evs : List XmlEv) (acc : List (Nat × Bytes)),
-    evs.length < n →
-    readPdu st (significant evs) acc
-      = ((readPdu st evs acc).1, (readPdu st evs acc).2.1, significant (readPdu st evs acc).2.2) := by
-  intro n
-  induction n with
-  | zero =>
-    intro st evs acc h
-    omega
-  | succ n ih =>
-    intro st evs acc h
-    have hs := readEvent_significant st evs
-    rw [readPdu_of (r := (readEvent st evs).1) (st' := (readEvent st evs).2.1)
-          (evs' := significant (readEvent st evs).2.2) hs,
-        readPdu_of (st := st) (evs := evs) (r := (readEvent st evs).1)
-          (st' := (readEvent st evs).2.1) (evs' := (readEvent st evs).2.2) rfl]
-    have hle : (readEvent st evs).1 ≠ .ok .eof → (readEvent st evs).2.2.length < n := by
-      intro hne
-      have := readEvent_lt (st := st) (evs := evs) (r := (readEvent st evs).1)
-        (st' := (readEvent st evs).2.1) (evs' := (readEvent st evs).2.2) rfl hne
-      omega
-    generalize (readEvent st evs).1 = r at *
-    generalize (readEvent st evs).2.1 = st' at *
-    generalize (readEvent st evs).2.2 = evs' at *
-    unfold pduStep
-    cases r with
-    | err => rfl
-    | panic => rfl
-    | ok ev =>
-      cases ev <;> first
-        | rfl
-        | exact ih _ _ _ (hle (by simp))
-
-/-- `read_frame` cannot tell a file from its significant events -/
-theorem readFrame_significant : ∀ (n : Nat) (st : RState) (evs : List XmlEv) (acc : List (Nat × Bytes))
-    (ext : FrameExt), evs.length < n →
-    readFrame st (significant evs) acc ext
-      = ((readFrame st evs acc ext).1, (readFrame st evs acc ext).2.1,
-         significant (readFrame st evs acc ext).2.2) := by
-  intro n
-  induction n with
-  | zero =>
-    intro st evs acc ext h
-    omega
-  | succ n ih =>
-    intro st evs acc ext h
-    have hs := readEvent_significant st evs
-    rw [readFrame_of (r := (readEvent st evs).1) (st' := (readEvent st evs).2.1)
-          (evs' := significant (readEvent st evs).2.2) hs,
-        readFrame_of (st := st) (evs := evs) (r := (readEvent st evs).1)
-          (st' := (readEvent st evs).2.1) (evs' := (readEvent st evs).2.2) rfl]
-    have hle : (readEvent st evs).1 ≠ .ok .eof → (readEvent st evs).2.2.length < n := by
-      intro hne
-      have := readEvent_lt (st := st) (evs := evs) (r := (readEvent st evs).1)
-        (st' := (readEvent st evs).2.1) (evs' := (readEvent st evs).2.2) rfl hne
-      omega
-    generalize (readEvent st evs).1 = r at *
-    generalize (readEvent st evs).2.1 = st' at *
-    generalize (readEvent st evs).2.2 = evs' at *
-    unfold frameStep
-    cases r with
-    | err => rfl
-    | panic => rfl
-    | ok ev =>
-      cases ev <;> first
-        | rfl
-        | exact ih _ _ _ _ (hle (by simp))
-
 /-- one unfolding of the file loop in terms of the result of `read_event` -/
 def fileStep (r : Res Event) (st' : RState) (evs' : List XmlEv) (acc : Acc) : Res Acc :=
   match r with
@@ -247,17 +178,96 @@ theorem readFile_of {st st' : RState} {evs evs' : List XmlEv} {acc : Acc} {r : R
       | rfl
       | (dsimp only; split <;> (rename_i hq; simp only [hq]))
 
-/-- the file loop cannot tell a file from its significant events -/
-theorem readFile_significant : ∀ (n : Nat) (st : RState) (evs : List XmlEv) (acc : Acc),
-    evs.length < n → readFile st (significant evs) acc = readFile st evs acc := by
+/-- a transformation of event lists that `read_event` cannot see: same event, same state, and
+    the remainder is the transformed remainder -/
+def Invisible (T : List XmlEv → List XmlEv) : Prop :=
+  ∀ (st : RState) (evs : List XmlEv),
+    readEvent st (T evs) = ((readEvent st evs).1, (readEvent st evs).2.1, T (readEvent st evs).2.2)
+
+section
+variable {T : List XmlEv → List XmlEv} (hT : Invisible T)
+include hT
+
+/-- `read_pdu` cannot see it either -/
+theorem readPdu_invisible : ∀ (n : Nat) (st : RState) (evs : List XmlEv) (acc : List (Nat × Bytes)),
+    evs.length < n →
+    readPdu st (T evs) acc
+      = ((readPdu st evs acc).1, (readPdu st evs acc).2.1, T (readPdu st evs acc).2.2) := by
+  intro n
+  induction n with
+  | zero =>
+    intro st evs acc h
+    omega
+  | succ n ih =>
+    intro st evs acc h
+    have hs := hT st evs
+    rw [readPdu_of (r := (readEvent st evs).1) (st' := (readEvent st evs).2.1)
+          (evs' := T (readEvent st evs).2.2) hs,
+        readPdu_of (st := st) (evs := evs) (r := (readEvent st evs).1)
+          (st' := (readEvent st evs).2.1) (evs' := (readEvent st evs).2.2) rfl]
+    have hle : (readEvent st evs).1 ≠ .ok .eof → (readEvent st evs).2.2.length < n := by
+      intro hne
+      have := readEvent_lt (st := st) (evs := evs) (r := (readEvent st evs).1)
+        (st' := (readEvent st evs).2.1) (evs' := (readEvent st evs).2.2) rfl hne
+      omega
+    generalize (readEvent st evs).1 = r at *
+    generalize (readEvent st evs).2.1 = st' at *
+    generalize (readEvent st evs).2.2 = evs' at *
+    unfold pduStep
+    cases r with
+    | err => rfl
+    | panic => rfl
+    | ok ev =>
+      cases ev <;> first
+        | rfl
+        | exact ih _ _ _ (hle (by simp))
+
+/-- ... nor `read_frame` -/
+theorem readFrame_invisible : ∀ (n : Nat) (st : RState) (evs : List XmlEv) (acc : List (Nat × Bytes))
+    (ext : FrameExt), evs.length < n →
+    readFrame st (T evs) acc ext
+      = ((readFrame st evs acc ext).1, (readFrame st evs acc ext).2.1,
+         T (readFrame st evs acc ext).2.2) := by
+  intro n
+  induction n with
+  | zero =>
+    intro st evs acc ext h
+    omega
+  | succ n ih =>
+    intro st evs acc ext h
+    have hs := hT st evs
+    rw [readFrame_of (r := (readEvent st evs).1) (st' := (readEvent st evs).2.1)
+          (evs' := T (readEvent st evs).2.2) hs,
+        readFrame_of (st := st) (evs := evs) (r := (readEvent st evs).1)
+          (st' := (readEvent st evs).2.1) (evs' := (readEvent st evs).2.2) rfl]
+    have hle : (readEvent st evs).1 ≠ .ok .eof → (readEvent st evs).2.2.length < n := by
+      intro hne
+      have := readEvent_lt (st := st) (evs := evs) (r := (readEvent st evs).1)
+        (st' := (readEvent st evs).2.1) (evs' := (readEvent st evs).2.2) rfl hne
+      omega
+    generalize (readEvent st evs).1 = r at *
+    generalize (readEvent st evs).2.1 = st' at *
+    generalize (readEvent st evs).2.2 = evs' at *
+    unfold frameStep
+    cases r with
+    | err => rfl
+    | panic => rfl
+    | ok ev =>
+      cases ev <;> first
+        | rfl
+        | exact ih _ _ _ _ (hle (by simp))
+
+/-- ... nor the file loop -/
+theorem readFile_invisible : ∀ (n : Nat) (st : RState) (evs : List XmlEv) (acc : Acc),
+    evs.length < n → readFile st (T evs) acc = readFile st evs acc := by
   intro n
   induction n with
   | zero => intro st evs acc h; omega
   | succ n ih =>
     intro st evs acc h
-    have hs := readEvent_significant st evs
+    have hs := hT st evs
     rw [readFile_of (r := (readEvent st evs).1) (st' := (readEvent st evs).2.1)
-          (evs' := significant (readEvent st evs).2.2) hs,
+          (evs' := T (readEvent st evs).2.2) hs,
         readFile_of (st := st) (evs := evs) (r := (readEvent st evs).1)
           (st' := (readEvent st evs).2.1) (evs' := (readEvent st evs).2.2) rfl]
     have hle : (readEvent st evs).1 ≠ .ok .eof → (readEvent st evs).2.2.length < n := by
@@ -278,7 +288,7 @@ theorem readFile_significant : ∀ (n : Nat) (st : RState) (evs : List XmlEv) (a
       | pduStart id =>
         have hl := hle (by simp)
         simp only
-        rw [readPdu_significant (evs'.length + 1) st' evs' [] (by omega)]
+        rw [readPdu_invisible hT (evs'.length + 1) st' evs' [] (by omega)]
         have hlen := readPdu_length st' evs' []
         generalize readPdu st' evs' [] = res at *
         obtain ⟨r2, st2, evs2⟩ := res
@@ -289,7 +299,7 @@ theorem readFile_significant : ∀ (n : Nat) (st : RState) (evs : List XmlEv) (a
       | frameStart id =>
         have hl := hle (by simp)
         simp only
-        rw [readFrame_significant (evs'.length + 1) st' evs' [] {} (by omega)]
+        rw [readFrame_invisible hT (evs'.length + 1) st' evs' [] {} (by omega)]
         have hlen := readFrame_length st' evs' [] {}
         generalize readFrame st' evs' [] {} = res at *
         obtain ⟨r2, st2, evs2⟩ := res
@@ -300,17 +310,32 @@ theorem readFile_significant : ∀ (n : Nat) (st : RState) (evs : List XmlEv) (a
       | _ => exact ih _ _ _ (hle (by simp))
 
 /-- all files -/
-theorem readFiles_significant (files : List (List XmlEv)) (acc : Acc) :
-    readFiles (files.map fun evs => some (significant evs)) acc
+theorem readFiles_invisible (files : List (List XmlEv)) (acc : Acc) :
+    readFiles (files.map fun evs => some (T evs)) acc
       = readFiles (files.map some) acc := by
   induction files generalizing acc with
   | nil => rfl
   | cons evs files ih =>
     simp only [List.map_cons, readFiles]
-    rw [readFile_significant (evs.length + 1) {} evs acc (by omega)]
+    rw [readFile_invisible hT (evs.length + 1) {} evs acc (by omega)]
     cases readFile {} evs acc with
     | ok acc' => exact ih acc'
     | err => rfl
     | panic => rfl
+
+end
+
+theorem significant_invisible : Invisible significant := readEvent_significant
+
+theorem Invisible.comp {T U : List XmlEv → List XmlEv} (hT : Invisible T) (hU : Invisible U) :
+    Invisible (T ∘ U) := by
+  intro st evs
+  simp only [Function.comp_def]
+  rw [hT st (U evs), hU st evs]
+
+/-- the file loop cannot tell a file from its significant events -/
+theorem readFiles_significant (files : List (List XmlEv)) (acc : Acc) :
+    readFiles (files.map fun evs => some (significant evs)) acc = readFiles (files.map some) acc :=
+  readFiles_invisible significant_invisible files acc
 
 end Dlt.Fibex
